@@ -363,7 +363,7 @@ def _format_batch(out, form, w, sg, batch, values, avalues):
 # ================================================================================================ part B
 def build_timing(desc):
     """desc: dict(p=program desc | None, n=program desc | None, cnt0, k0, arst) -> (module, signals)"""
-    from amaranth.hdl import Module, ClockDomain, Signal, Print, Format, Assert, Assume, Cover, Cat
+    from amaranth.hdl import Module, ClockDomain, Signal, Print, Format, Assert, Assume, Cover, Cat, signed
     m = Module()
     cd_p = ClockDomain("p", async_reset=bool(desc.get("arst")))
     cd_n = ClockDomain("n", clk_edge="neg")
@@ -372,12 +372,17 @@ def build_timing(desc):
     x = Signal(2, name="x")
     cnt = Signal(2, name="cnt", init=desc["cnt0"])
     k = Signal(1, name="k", init=desc["k0"])
+    sg = Signal(signed(3), name="sg", init=R.sg_of(desc["cnt0"], desc["k0"]))     # registered signed value
+    m.d.p += sg.eq(Cat(x, k))
     wire = Signal(name="w")
     m.d.comb += wire.eq(x[0] & x[1])
 
     def expr(name):
         return {"x0": x[0], "x1": x[1], "nx0": ~x[0], "c0": cnt[0], "c1": cnt[1], "k": k, "w": wire, "x": x, "cnt": cnt,
-                "xe2": x == 2, "xn3": x != 3, "cn3": cnt != 3, "kx": k | x[0], "xc": Cat(x[0], cnt[0]), "xk": Cat(x, k)}[name]
+                "xe2": x == 2, "xn3": x != 3, "cn3": cnt != 3, "kx": k | x[0], "xc": Cat(x[0], cnt[0]), "xk": Cat(x, k),
+                # multi-bit values used directly as tests / conditions (see c20_gen.MULTIBIT)
+                "sg": sg, "xs": x.as_signed(), "xpc": x + cnt, "xmc": x - cnt, "xl1": x << 1, "xk12": Cat(x, k)[1:3],
+                "sgs": sg[1:]}[name]
 
     def emit(dom, prog):
         for st in prog:
@@ -422,6 +427,7 @@ class SeqRunner:
         self.frag, self.sigs, self.fresh = frag, sigs, fresh
         self.sim = None
         self.seq = ()
+        self.seen = set()        # (statement kind | "if", test name, value class) met in conforming steps
 
     def _make(self):
         from amaranth.sim import Simulator
@@ -531,6 +537,7 @@ def check_sequence(desc, progs, runner, seq):
                 return ("print-mismatch", cause + ":extra=" + ",".join(_leaf_of(t) for t in extra), i,
                         f"{where}: printed {got} before stopping, enabled prints are {exp['prints']}"), False, stats
             stats["stops"] += 1
+            runner.seen |= exp["seen"]
             return None, True, stats
         if exp["fails"]:
             return ("missing-stop", ",".join(_leaf_of(t) for t in exp["fails"]), i,
@@ -546,6 +553,8 @@ def check_sequence(desc, progs, runner, seq):
             return ("print-mismatch", cause + ":extra=" + ",".join(_leaf_of(t) for t in extra) + ":missing=" +
                     ",".join(_leaf_of(t) for t in missing), i, f"{where}: printed {got}, expected {exp['prints']}"), False, stats
         stats["prints"] += len(got)
+        if i == len(seq) - 1:
+            runner.seen |= exp["seen"]
     if exc is not None:
         return ("spurious-stop", "after-last-step", len(seq), f"AssertionError {exc} after the last step"), False, stats
     return None, False, stats
@@ -587,6 +596,7 @@ def w_timing(task):
     tag = timing_tag(desc)
     tot = dict.fromkeys(STAT_KEYS, 0)
     confirmations = 0
+    seen_all = set()
     for cnt0, k0, L in plan:
         d = dict(desc, cnt0=cnt0, k0=k0)
         m, sigs, progs = build_timing(d)
@@ -625,6 +635,7 @@ def w_timing(task):
                         nxt.append(seq)
             alive = nxt
             last_level = nxt or last_level
+        seen_all |= reuse.seen
         _add(out, "timing_sequences_alive_at_full_length", len(alive))
         # conformance of the reused simulator with fresh ones on a deterministic spread of the longest sequences
         pick = last_level[:: max(1, len(last_level) // n_fresh)][:n_fresh] if last_level else []
@@ -642,6 +653,7 @@ def w_timing(task):
         _add(out, "timing_" + kk, vv)
     _add(out, "distinct_nontrivial", 1 if tot["active_edges"] else 0)
     _add(out, "timing_designs")
+    out["cov"]["test_classes"] = sorted(":".join(t) for t in seen_all)
     del out["_sigs"]
     return out
 
@@ -702,10 +714,12 @@ def run(rep):
         rep.require(not R.python_accepts(s) and not R.grammar_accepts(s, 8, False), f"malformed specification {s!r} is not invalid")
     tasks = rotate(ttasks + ftasks, rep.seed)
     walls = {}
+    test_classes = set()
     by_part = {}
     for part in pmap(_dispatch_timed, tasks, rep.procs):
         kind, out, wall = part
         walls[kind] = walls.get(kind, 0) + wall
+        test_classes.update(out["cov"].pop("test_classes", []))
         rc = out["cov"].pop("reject_classes", None)
         if rc:
             cur = rep.cov.setdefault("reject_classes", {})
@@ -727,7 +741,9 @@ def run(rep):
                "as_signed/as_unsigned; quick tier: the two secondary forms on the no-fill sub-product}: Format acceptance == documented "
                "grammar; for accepted ones, all values (width<=4 quick, <=8 thorough) or corner values: text printed by a sync Print and "
                "message of the failing Assert == Python format(). Part B: control-flow programs (12 forms, nesting depth <= 2, every hole "
-               "holds Print/Assert/Cover/Assume/Print) in a rising- and a falling-edge domain (+3 designs with an asynchronous reset); ALL "
+               "holds Print/Assert/Cover/Assume/Print; tests and If conditions include 2-3 bit unsigned / signed values taken directly from "
+               "an input, registers, slices and expressions: pass iff NON-ZERO) in a rising- and a falling-edge domain (+3 designs with "
+               "an asynchronous reset); ALL "
                "sequences of (input valuation, clock toggle mask) actions up to the stated length from every register initial state "
                "(extensions of a sequence that ended in an AssertionError are not run), each one a separate Simulator.run(). "
                "distinct_nontrivial = accepted (spec, operand, value) triples whose expected text differs from str(value), plus timing "
@@ -740,6 +756,19 @@ def run(rep):
     rep.require(not guards or rep.cov.get("grammar_valid", 0) > 0 and rep.cov.get("grammar_invalid", 0) > 0, "grammar oracle says valid and invalid")
     rep.require(not guards or rep.cov.get("print_texts_compared", 0) > 0, "Print texts compared")
     rep.require(not guards or rep.cov.get("assert_texts_compared", 0) > 0, "Assert messages compared")
+    # multi-bit tests: every statement kind met every multi-bit test with a zero value, with a non-zero value whose bit 0
+    # is clear and (signed tests) with a negative value; If / Elif conditions likewise
+    multibit = {}
+    for kind in ("A", "U", "C", "if"):
+        for t in (G.MULTIBIT if kind != "if" else [c for c in G.CONDS if c in G.MULTIBIT]):
+            need = ["zero", "even_nonzero" if t not in ("xs",) else "negative_even"]
+            if t in G.SIGNED_TESTS:
+                need.append("negative_even")
+            for cls in need:
+                ok = f"{kind}:{t}:{cls}" in test_classes
+                multibit[f"{kind}:{t}:{cls}"] = ok
+                rep.require(not guards or ok, f"multi-bit test {t} never met as {cls} by a {kind} statement")
+    rep.setcov("multibit_test_classes_seen", sorted(c for c in test_classes if c.split(":")[1] in G.MULTIBIT))
     for key in ("timing_active_edges", "timing_inactive_edges", "timing_no_edge", "timing_prints", "timing_stops",
                 "timing_active_edges_nothing_enabled", "timing_both_domains_edge", "timing_rst_events"):
         rep.require(not guards or rep.cov.get(key, 0) > 0, f"{key} never exercised")
